@@ -107,8 +107,17 @@ def add_header_to_file(
     # header could be built.
     text = ""
     if Path(path).exists():
-        with open(path, "r", encoding="utf-8", newline="") as fp:
-            text = fp.read()
+        try:
+            with open(path, "r", encoding="utf-8", newline="") as fp:
+                text = fp.read()
+        except UnicodeDecodeError:
+            out.write(
+                _("Error: '{path}' could not be decoded as UTF-8").format(
+                    path=path
+                )
+            )
+            out.write("\n")
+            return 1
 
     # A byte order mark must stay the very first thing in the file.
     bom = ""
